@@ -23,7 +23,7 @@ MESSAGES = ["Success", "Unknown error", "Out of memory", "Configuration file not
             "File has wrong file permissions", "File has wrong dir permissions", "File is a sym link which is not permitted",
             "User defined parsing callback has failed", "Given argument is NULL", "Given option not found", "Value cannot be converted"]
 
-KINDS = {"nobracket": 9, "textafter": 12, "emptyname": 11, "nodelim": 10}
+KINDS = {"nobracket": 9, "textafter": 12, "emptyname": 11, "nodelim": 10, "nodelim_quoted": 10}
 
 
 def malformed_line(rng, g, kind):
@@ -38,6 +38,11 @@ def malformed_line(rng, g, kind):
             if tail and not tail.endswith(b"]"):
                 break
         return b(0, 2) + b"[" + g.section_name() + b"]" + b(0, 2) + tail + b(0, 2)
+    if kind == "nodelim_quoted":
+        # key, blanks, then text in which a delimiter character comes later (inside double quotes): not a continuation line
+        # of the entry before it (those have no delimiter character at all), and no delimiter after the key
+        q = b'"' + g.text(1, 3, g.comment + g.delim + b'"').strip(b" \t\x0b\x0c\r") + g.delim[:1] + g.text(0, 3, g.comment + b'"') + b'"'
+        return g.key() + b(1, 2) + q + (b(1, 1) + b"c" if rng.random() < 0.5 else b"")
     # key followed by text without delimiter
     while True:
         t = g.text(1, 6, g.comment + g.delim).strip(b" \t\x0b\x0c\r")
@@ -49,7 +54,7 @@ def malformed_line(rng, g, kind):
 def make(rng, sid, hist):
     comment = rng.choice(docs.COMMENTS)
     kind = rng.choice(list(KINDS))
-    delim = rng.choice([b"=", b":="]) if kind == "nodelim" else rng.choice(docs.DELIMS)
+    delim = rng.choice([b"=", b":="]) if kind.startswith("nodelim") else rng.choice(docs.DELIMS)
     g = gen_doc.Gen(rng, delim, comment, hist=hist)
     items = g.document(rng.choice([0, 2, 6, 15]))
     if kind == "nodelim":
